@@ -26,9 +26,10 @@ pub enum Op {
     NoWire { which: String, n: u16 },
     /// build_message(decode(spec)) with the k-th Assembler::put failing (hook)
     Injected { spec: GenSpec, k: u64 },
-    /// build_generated_message on the same builder (history only, not judged)
+    /// build_generated_message on the same builder (judged under clause C12.g: same
+    /// generator state => same frame as a fresh builder)
     Generated { spec: GenSpec },
-    /// build_generated_message interrupted at the k-th put (history only)
+    /// build_generated_message interrupted at the k-th put
     GeneratedInjected { spec: GenSpec, k: u64 },
 }
 
@@ -253,6 +254,7 @@ fn guarded_generate(b: &mut MessageBuilder, spec: &GenSpec, k: u64) -> (Outcome,
     let mut vg = val_gen_for(spec);
     verif_hooks::arm_put_failure(k);
     let r = catch_unwind(AssertUnwindSafe(|| b.build_generated_message(&mut vg, spec.msg).map(|f| f.to_vec()).map_err(|e| format!("{:?}", e))));
+    LAST_BITS.with(|c| c.set(verif_hooks::bits_put()));
     let puts = verif_hooks::disarm();
     (
         match r {
@@ -300,8 +302,12 @@ pub fn run_op(b: &mut MessageBuilder, op: &Op, msg: &Option<Message>) -> (Outcom
     }
 }
 
-pub fn is_judged(op: &Op) -> bool {
-    !matches!(op, Op::Generated { .. } | Op::GeneratedInjected { .. })
+pub fn is_judged(_op: &Op) -> bool {
+    true
+}
+
+fn is_generated(op: &Op) -> bool {
+    matches!(op, Op::Generated { .. } | Op::GeneratedInjected { .. })
 }
 
 // ---------------------------------------------------------------------------
@@ -363,7 +369,7 @@ pub fn judge_builder(trace: &BuilderTrace, mut stats: Option<&mut Stats>) -> Opt
                     if a != b {
                         return Some(Violation::new(
                             "C12",
-                            "C12.a",
+                            if is_generated(op) { "C12.g" } else { "C12.a" },
                             format!(
                                 "op #{} {}: reused builder (history: {}) produced a frame that differs from a fresh builder's: {}; reused [{}] fresh [{}]",
                                 i,
@@ -378,7 +384,7 @@ pub fn judge_builder(trace: &BuilderTrace, mut stats: Option<&mut Stats>) -> Opt
                 }
                 (Outcome::Error(a), Outcome::Error(b)) => {
                     if a != b {
-                        return Some(Violation::new("C12", "C12.b", format!("op #{} {}: reused builder fails with {}, fresh builder with {}", i, op_brief(op), a, b)));
+                        return Some(Violation::new("C12", if is_generated(op) { "C12.g" } else { "C12.b" }, format!("op #{} {}: reused builder fails with {}, fresh builder with {}", i, op_brief(op), a, b)));
                     }
                 }
                 (Outcome::Panic(_), Outcome::Panic(_)) => {
@@ -389,7 +395,7 @@ pub fn judge_builder(trace: &BuilderTrace, mut stats: Option<&mut Stats>) -> Opt
                 (a, b) => {
                     return Some(Violation::new(
                         "C12",
-                        "C12.b",
+                        if is_generated(op) { "C12.g" } else { "C12.b" },
                         format!(
                             "op #{} {}: reused builder outcome {} ({}) but fresh builder outcome {} ({})",
                             i,
